@@ -159,6 +159,34 @@ void prop_c04(hz::Ctx &ctx) {
 static bool has_rel8(const std::string &mn) { return mn != "call" && mn != "xbegin"; }
 static bool has_rel32(const std::string &mn) { return mn != "jrcxz"; }
 
+
+struct RelVerdict { bool ok = true; std::string symptom, detail; al::Result res; };
+// the four clauses of C05 for one relative-branch line
+static RelVerdict check_rel(const LineCase &c) {
+  RelVerdict v; const std::string &mn = c.it.mn; int kw = c.it.brkw; int64_t d = (int64_t)c.it.ops[0].imm.v;
+  auto bad = [&](const std::string &s, const std::string &dt) { v.ok = false; v.symptom = s; v.detail = dt; return v; };
+  bool fits8 = d >= -128 && d <= 127;
+  v.res = al::assemble(text(c.it), c.combo);
+  const al::Result &res = v.res;
+  bool must_reject = (!has_rel32(mn) || kw == 1) && !fits8;                 // clause 4
+  bool must_accept = kw == 0 && (has_rel32(mn) || fits8);                  // clause 2
+  if (res.rc != 0) {
+    if (must_accept) return bad("rejected", "every d in -2^31..2^31-1 must be accepted without keyword");
+    if (res.wrote_on_failure) return bad("wrote-on-reject", "buffer modified by a rejected line");
+    return v;
+  }
+  std::string hexs = x86::hex(res.bytes.data(), res.bytes.size());
+  if (must_reject) return bad("wrapped", "rel8-only/short with d outside -128..127 was accepted: " + hexs);
+  x86::Insn got = x86::decode(res.bytes.data(), res.bytes.size());
+  if (!got.ok) return bad("undecodable", hexs + " : " + got.err);
+  if ((size_t)got.len != res.bytes.size()) return bad("length", hexs + " : decoded '" + x86::to_string(got) + "' len " + std::to_string(got.len) + " of " + std::to_string(res.bytes.size()));
+  if (got.op != canon_op(mn) || got.ops.size() != 1 || got.ops[0].k != K_REL) return bad("operation", hexs + " decodes to '" + x86::to_string(got) + "'");
+  if (got.n66 || got.n67 || got.rex) return bad("prefix", hexs + " carries a prefix that changes or obscures the branch");
+  if ((int64_t)got.ops[0].imm != d) return bad("branch displacement", hexs + " decodes to '" + x86::to_string(got) + "' ; want displacement " + std::to_string(d));
+  if (kw == 2 && got.ops[0].width != 32) return bad("long-not-rel32", hexs + " : long must force rel32");
+  return v;
+}
+
 void prop_c05(hz::Ctx &ctx) {
   hz::Rng rng(ctx.seed ^ 0xc05);
   auto rels = rel_values(rng, ctx.thorough() ? 20000 : 2000);
@@ -175,24 +203,9 @@ void prop_c05(hz::Ctx &ctx) {
         bool fits8 = d >= -128 && d <= 127;
         ctx.cls(std::string("kw:") + (kw == 0 ? "none" : kw == 1 ? "short" : "long")); ctx.cls(fits8 ? "d:fits8" : "d:needs32"); if (d < 0) ctx.cls("d:negative");
         if (d < 0 || !fits8 || kw) ctx.nontrivial(id);
-        al::Result res = al::assemble(text(c.it), c.combo);
-        ctx.sample(text(c.it) + " -> " + (res.rc == 0 ? x86::hex(res.bytes.data(), res.bytes.size()) : std::string("EXIT_FAILURE")));
-        bool must_reject = (!has_rel32(r.mn) || kw == 1) && !fits8;                 // clause 4
-        bool must_accept = kw == 0 && (has_rel32(r.mn) || fits8);                  // clause 2
-        if (res.rc != 0) {
-          if (must_accept) ctx.fail(make_failure(c, "rejected", "every d in -2^31..2^31-1 must be accepted without keyword"));
-          else if (res.wrote_on_failure) ctx.fail(make_failure(c, "wrote-on-reject", "buffer modified by a rejected line"));
-          continue;
-        }
-        if (must_reject) { ctx.fail(make_failure(c, "wrapped", "rel8-only/short with d outside -128..127 was accepted: " + x86::hex(res.bytes.data(), res.bytes.size()))); continue; }
-        x86::Insn got = x86::decode(res.bytes.data(), res.bytes.size());
-        std::string hexs = x86::hex(res.bytes.data(), res.bytes.size());
-        if (!got.ok) { ctx.fail(make_failure(c, "undecodable", hexs + " : " + got.err)); continue; }
-        if ((size_t)got.len != res.bytes.size()) { ctx.fail(make_failure(c, "length", hexs + " : decoded '" + x86::to_string(got) + "' len " + std::to_string(got.len) + " of " + std::to_string(res.bytes.size()))); continue; }
-        if (got.op != canon_op(r.mn) || got.ops.size() != 1 || got.ops[0].k != K_REL) { ctx.fail(make_failure(c, "operation", hexs + " decodes to '" + x86::to_string(got) + "'")); continue; }
-        if (got.n66 || got.n67 || got.rex) { ctx.fail(make_failure(c, "prefix", hexs + " carries a prefix that changes or obscures the branch")); continue; }
-        if ((int64_t)got.ops[0].imm != d) { ctx.fail(make_failure(c, "branch displacement", hexs + " decodes to '" + x86::to_string(got) + "' ; want displacement " + std::to_string(d))); continue; }
-        if (kw == 2 && got.ops[0].width != 32) { ctx.fail(make_failure(c, "long-not-rel32", hexs + " : long must force rel32")); continue; }
+        RelVerdict rv = check_rel(c);
+        ctx.sample(text(c.it) + " -> " + (rv.res.rc == 0 ? x86::hex(rv.res.bytes.data(), rv.res.bytes.size()) : std::string("EXIT_FAILURE")));
+        if (!rv.ok) ctx.fail(make_failure(c, rv.symptom, rv.detail));
       }
     }
   }
@@ -218,10 +231,11 @@ int replay_line(const std::string &prop, const std::string &caseid) {
   LineCase c; if (!parse_case(caseid, c)) { fprintf(stderr, "cannot parse case\n"); return 2; }
   printf("line: %s   [%s]\n", text(c.it).c_str(), combo_name(c.combo).c_str());
   if (prop == "C05" && c.it.form == "REL") {
-    al::Result res = al::assemble(text(c.it), c.combo);
-    printf("rc=%d bytes=%s\n", res.rc, x86::hex(res.bytes.data(), res.bytes.size()).c_str());
-    if (res.rc == 0) { x86::Insn g = x86::decode(res.bytes.data(), res.bytes.size()); printf("decoded: %s (len %d)\n", x86::to_string(g).c_str(), g.len); }
-    return 0;
+    RelVerdict rv = check_rel(c);
+    printf("rc=%d bytes=%s\n", rv.res.rc, x86::hex(rv.res.bytes.data(), rv.res.bytes.size()).c_str());
+    if (rv.ok) { printf("OK\n"); return 0; }
+    printf("FAIL symptom=%s : %s\n", rv.symptom.c_str(), rv.detail.c_str());
+    return 1;
   }
   Verdict v = check_encoding(c);
   printf("rc=%d bytes=%s\n", v.res.rc, x86::hex(v.res.bytes.data(), v.res.bytes.size()).c_str());
